@@ -26,7 +26,7 @@ def map_stmts(stmts, f):
         elif k == "if":
             s = ("if", s[1], map_stmts(s[2], f), map_stmts(s[3], f) if s[3] is not None else None) + tuple(s[4:])
         elif k == "for":
-            s = ("for", s[1], s[2], s[3], map_stmts(s[4], f))
+            s = ("for", s[1], s[2], s[3], map_stmts(s[4], f)) + tuple(s[5:])
         elif k == "apply":
             s = ("apply", s[1], [("code", map_stmts(a[1], f)) if isinstance(a, tuple) else a for a in s[2]])
         out += f(s)
@@ -78,34 +78,90 @@ def loop_local_names(stmts):
 
 
 # ---------------------------------------------------------------------------------------------- C10
-def truth(cond, consts):
-    """value of a generated .if condition: literals, := constants, or an undefined name"""
-    c = cond.strip()
-    if re.fullmatch(r"-?\d+", c):
-        return int(c) != 0
-    if c in consts:
-        return consts[c] != 0
-    return False  # an undefined name counts as false
+def value_of(text, env):
+    """value of a generated expression text under env (names -> int), None when a name is unknown; the operators the
+    generators use (+ - * << >> &, parentheses, decimal / hex literals) have Python's relative precedence in the
+    property's conventional reading, so Python evaluates the text"""
+    t = text.strip()
+    names = [n for n in NAME.findall(t) if not re.fullmatch(r"x[0-9a-fA-F]+", n) or t[max(0, t.find(n) - 1)] != "0"]
+    names = [n for n in re.findall(r"(?<![0-9A-Za-z_])[A-Za-z_][A-Za-z_0-9.]*", t)]
+    if any(n not in env for n in names):
+        return None
+    if not re.fullmatch(r"[\sA-Za-z_0-9.()+\-*&<>]*", t):
+        return None
+    try:
+        return int(eval(t, {"__builtins__": {}}, dict(env)))  # noqa: S307 - texts come from our own generator
+    except Exception:  # noqa: BLE001
+        return None
 
 
 def expand_if_for(stmts):
-    """hand expansion: .if -> the statements of the selected branch; .for -> one block per iteration binding the variable"""
-    consts = {}
-
-    def f(s):
-        if s[0] == "const":
-            consts[s[1]] = s[3]
-        if s[0] == "if":
-            t = truth(s[1], consts)
-            return list(s[2]) if t else (list(s[3]) if s[3] is not None else [])
+    """hand expansion: .if -> the statements of the selected branch; .for -> one block per iteration binding the
+    variable.  Done top-down with the values that are known at that point (:= constants of enclosing scopes, loop
+    variables of enclosing unrolled loops); a condition that mentions a name whose value is not known there (a macro
+    parameter, a symbol) is left as it is, a condition over a name nothing defines counts as false."""
+    defined = set()
+    for s in walk(stmts):
+        if s[0] in ("const", "sym", "label"):
+            defined.add(s[1])
+        if s[0] == "macro":
+            defined.update(s[2])
         if s[0] == "for":
-            lo, hi = int(s[2], 0), int(s[3], 0)
-            out = []
-            for k in range(lo, hi):
-                out.append(("block", [("sym", s[1], str(k))] + list(s[4])))
-            return out
-        return [s]
-    return map_stmts(stmts, f)
+            defined.add(s[1])
+
+    def go(body, env, in_macro):
+        env = dict(env)
+        out = []
+        for s in body:
+            k = s[0]
+            if k == "const":
+                v = s[3] if len(s) > 3 and s[3] is not None else value_of(s[2], env)
+                if v is None:
+                    env.pop(s[1], None)
+                else:
+                    env[s[1]] = v
+                out.append(s)
+            elif k == "sym":
+                env.pop(s[1], None)
+                out.append(s)
+            elif k == "block":
+                out.append(("block", go(s[1], env, in_macro)))
+            elif k == "scope":
+                out.append(("scope", s[1], go(s[2], env, in_macro)))
+            elif k == "macro":
+                e2 = {a: b for a, b in env.items() if a not in s[2]}
+                out.append(("macro", s[1], s[2], go(s[3], {}, True)))
+            elif k == "apply":
+                out.append(("apply", s[1], [("code", go(a[1], {}, True)) if isinstance(a, tuple) else a for a in s[2]]))
+            elif k == "if":
+                names = set(re.findall(r"(?<![0-9A-Za-z_])[A-Za-z_][A-Za-z_0-9.]*", s[1]))
+                v = value_of(s[1], env)
+                if v is None and names and not (names & defined) and not in_macro:
+                    v = 0       # a name nothing defines: false
+                if v is None or in_macro:
+                    out.append(("if", s[1], go(s[2], env, in_macro), go(s[3], env, in_macro) if s[3] is not None else None))
+                elif v != 0:
+                    out += go(s[2], env, in_macro)
+                elif s[3] is not None:
+                    out += go(s[3], env, in_macro)
+            elif k == "for":
+                lo = s[5] if len(s) > 5 else value_of(s[2], env)
+                hi = s[6] if len(s) > 6 else value_of(s[3], env)
+                if lo is None or hi is None or in_macro:
+                    e2 = dict(env)
+                    e2.pop(s[1], None)
+                    out.append(("for", s[1], s[2], s[3], go(s[4], e2, in_macro)) + tuple(s[5:]))
+                else:
+                    for i in range(lo, hi):
+                        # the loop variable is bound like a `=` symbol: it has no value yet while the body is expanded
+                        # (a condition on it sees an enclosing definition of that name, or nothing)
+                        e2 = dict(env)
+                        e2.pop(s[1], None)
+                        out.append(("block", [("sym", s[1], str(i))] + go(s[4], e2, in_macro)))
+            else:
+                out.append(s)
+        return out
+    return go(stmts, {}, False)
 
 
 # ---------------------------------------------------------------------------------------------- C09
@@ -138,8 +194,8 @@ def inline_macros(stmts, consts_visible=None):
                     continue
                 counter[0] += 1
                 t = f"tmp_arg_{counter[0]}"
-                evaluable = all((n in consts) or re.fullmatch(r"0x[0-9a-fA-F]+|\d+", n) for n in names_in(a) | set())
-                evaluable = evaluable and not (names_in(a) - consts - {n for n in names_in(a) if re.fullmatch(r"x[0-9a-fA-F]+", n)})
+                idents = set(re.findall(r"(?<![0-9A-Za-z_])[A-Za-z_][A-Za-z_0-9.]*", a))
+                evaluable = all(n in consts for n in idents)
                 if evaluable:
                     outer.append(("const", t, a, None))
                     inner.append(("const", p, t, None))
@@ -178,7 +234,7 @@ def rename(stmts, old, new):
         if k == "if":
             return [("if", r(s[1])) + tuple(s[2:])]
         if k == "for":
-            return [("for", s[1], r(s[2]), r(s[3]), s[4])]
+            return [("for", s[1], r(s[2]), r(s[3]), s[4]) + tuple(s[5:])]
         return [s]
     return map_stmts(stmts, f)
 
